@@ -37,7 +37,9 @@ RULE = ("TLC enumerates every level instance of the reference world (every prefi
         "none / two-step / single-call by translation); each case = 1 call event + 1 event per component kind + 1 per "
         "derived quantity (+ 1 per kind after the undo); plus seeded "
         "random float angles (uniform, dense near 0, near +-0.05, near multiples of pi/2 and +-2pi) x random targets x "
-        "random integer translations.  Variants: cold (moved right after construction) for every case, warm (.vertices / "
+        "random integer translations.  Histories: two motions on the same object (judged by R(R(p+t1)+t2)) and three motions on "
+        "fresh objects, back to back in one process, translations differing by -1 vs -2 in one component, 3 tokens, 26 "
+        "targets.  Variants: cold (moved right after construction) for every case, warm (.vertices / "
         ".shapely_object / contains_point of every reachable shape evaluated before the motion) for the sampled tokens at "
         "t != 0, the role mixes and every 5th other case (thorough: all).  Aliasing: every case at level scenario / lanelet_network / "
         "lanelet also on the world in which lanelets 1 and 3 hold one ndarray object as common boundary (sig suffix "
@@ -190,7 +192,7 @@ def cases(ctx):
     out = []
     for i, c in enumerate(cs):
         out.append(dict(c, variant="cold"))
-        if set(c["mix"]) & set(PARTS):          # no shapes with exported geometry there: cold only
+        if set(c["mix"]) & set(PARTS) or c["undo"].startswith("seq"):   # parts: no exported geometry; sequences: cold only
             continue
         if (ctx.thorough or len(c["mix"]) < 4 or i % 5 == 0
                 or (c["mode"] == "tok" and tuple(c["rot"]) in sample and c["t"] != [0, 0] and c["undo"] != "one")):
@@ -198,7 +200,7 @@ def cases(ctx):
     # aliasing variant: lanelets 1 and 3 hold one ndarray object as common boundary; every case that addresses the
     # scenario, the lanelet network or a lanelet is run on that world as well (same lattice points, same expectations)
     for c in list(out):
-        if c["level"] in ("scenario", "lanelet_network", "lanelet") and len(c["mix"]) == 4 \
+        if c["level"] in ("scenario", "lanelet_network", "lanelet") and len(c["mix"]) == 4 and not c["undo"].startswith("seq") \
                 and (c["variant"] == "cold" or ctx.thorough):
             out.append(dict(c, alias="shared-arrays"))
     return out
@@ -651,28 +653,10 @@ def _same(a, b):
     return 1 if (_finite(a, b) and abs(float(a) - float(b)) <= 1e-9 * max(1.0, abs(float(b)))) else 0
 
 
-def execute(case):
-    use_repo()
-    mix = case["mix"]
-    path = _key(case["tgt"])
-    level = path[-1][0]
-    variant = case.get("variant", "cold")
-    alias = case.get("alias", "none")
-    cls = angle_class(case) + "/" + variant + ("/" + alias if alias != "none" else "")
-    twin = build(mix, alias)               # never moved: derived quantities and exported corners "before" are read here
-    world = build(mix, alias)
-    before, _ = walk(world, mode="touch" if variant == "warm" else "primary")
-    tcomps, der0 = walk(twin, mode="full")
-    before += [c for c in tcomps if c[0].startswith("rect_corners/") or c[0].startswith("tr.occ/")]
-    ov = {}
-    exc = _apply(world, ov, path, case["t"], angle_of(case))
-    after, der1 = walk(world, ov, mode="full")
+def _tr_events(case, op, base, before, after, kinds, sig_of):
+    """one event per component kind: before-snapshot vs. after-snapshot under the projection of `case`"""
     amap = {(c[0], c[1]): c for c in after}
-    base = {"tgt": [list(p) for p in path], "t": list(case["t"]), "rot": list(case["rot"]), "mix": list(mix)}
-    kinds = sorted({c[0] for c in before})
-    ev = [dict(op="call", tgt=base["tgt"], mix=list(mix), exc=exc, kinds=kinds, level=level,
-               sig="%s/mix=%s/%s%s" % (level, "".join(r[0] for r in ROLES if r in mix) or "+".join(mix) or "-", variant,
-                               "/" + alias if alias != "none" else ""))]
+    out = []
     for k in kinds:
         comps = []
         for bc in before:
@@ -691,13 +675,60 @@ def execute(case):
                            for i, o in enumerate(oris)],
                           [_vel_entry(case, v, avels[i] if i < len(avels) and len(avels) == len(vels) else None)
                            for i, v in enumerate(vels)]])
-        ev.append(dict(base, op="tr", mode=case["mode"], kind=k, comps=comps, sig="%s/%s/%s" % (level, k, cls)))
+        out.append(dict(base, op=op, mode=case["mode"], kind=k, comps=comps, sig=sig_of(k)))
+    return out
+
+
+def execute(case):
+    """One case = one call of execute: sequences of motions run back to back in this process."""
+    use_repo()
+    if case["undo"] == "seq-other":          # three motions on three fresh worlds; each is judged like a first motion
+        ev = []
+        for n, tt in enumerate([case["t"]] + [[st[0] // st[2], st[1] // st[2]] for st in case["steps"]]):
+            ev += _execute(dict(case, t=tt, undo="none", steps=[]), "/seq%d-other" % (n + 1))
+        return {"ev": ev}
+    return {"ev": _execute(case, "/seq1-same" if case["undo"] == "seq-same" else "")}
+
+
+def _execute(case, suffix):
+    mix = case["mix"]
+    path = _key(case["tgt"])
+    level = path[-1][0]
+    variant = case.get("variant", "cold")
+    alias = case.get("alias", "none")
+    cls = angle_class(case) + "/" + variant + ("/" + alias if alias != "none" else "") + suffix
+    twin = build(mix, alias)               # never moved: derived quantities and exported corners "before" are read here
+    world = build(mix, alias)
+    before, _ = walk(world, mode="touch" if variant == "warm" else "primary")
+    tcomps, der0 = walk(twin, mode="full")
+    before += [c for c in tcomps if c[0].startswith("rect_corners/") or c[0].startswith("tr.occ/")]
+    ov = {}
+    exc = _apply(world, ov, path, case["t"], angle_of(case))
+    after, der1 = walk(world, ov, mode="full")
+    base = {"tgt": [list(p) for p in path], "t": list(case["t"]), "rot": list(case["rot"]), "mix": list(mix)}
+    kinds = sorted({c[0] for c in before})
+    mixsig = "".join(r[0] for r in ROLES if r in mix) or "+".join(mix) or "-"
+    callsig = "%s/mix=%s/%s%s%s" % (level, mixsig, variant, "/" + alias if alias != "none" else "", suffix)
+    ev = [dict(op="call", tgt=base["tgt"], mix=list(mix), exc=exc, kinds=kinds, level=level, sig=callsig)]
+    ev += _tr_events(case, "tr", base, before, after, kinds, lambda k: "%s/%s/%s" % (level, k, cls))
     for q in sorted(der0):
         m1 = dict(der1.get(q, []))
         ev.append(dict(op="derived", tgt=base["tgt"], q=q,
                        vals=[[n, _same(m1.get(n, float("nan")), v)] for n, v in der0[q]],
                        sig="%s/%s/%s" % (level, q, cls)))
-    if case["undo"] != "none":
+    if case["undo"] == "seq-same":           # a second motion on the SAME object: original p must be at R(R(p + t1) + t2)
+        tnx, tny, tden, r = case["steps"][0]
+        t2 = [tnx // tden, tny // tden]
+        exc2 = _apply(world, ov, path, t2, math.atan2(r[1], r[0]) + TWO_PI * r[3])
+        after2, _ = walk(world, ov, mode="full")
+        den = case["rot"][2]
+        proj = dict(case, rot=[case["rot"][0], case["rot"][1], den * den, case["rot"][3]],       # numerators over den^2
+                    t=[case["t"][0] + t2[0], case["t"][1] + t2[1]])
+        cls2 = cls.replace("/seq1-same", "/seq2-same")
+        ev.append(dict(op="call", tgt=base["tgt"], mix=list(mix), exc=exc2, kinds=kinds, level=level,
+                       sig=callsig.replace("/seq1-same", "/seq2-same")))
+        ev += _tr_events(proj, "tr2", dict(base, t2=t2), before, after2, kinds, lambda k: "%s/%s/%s" % (level, k, cls2))
+    elif case["undo"] != "none":
         for tnx, tny, tden, r in case["steps"]:
             _apply(world, ov, path, (tnx / tden, tny / tden), math.atan2(r[1], r[0]) + TWO_PI * r[3])
         back, _ = walk(world, ov, mode="full")
@@ -726,7 +757,7 @@ def execute(case):
                 comps.append([[list(q) for q in p], ok])
             ev.append(dict(base, op="undo", mode=case["undo"], steps=case["steps"], kind=k, comps=comps,
                            sig="%s/%s/%s" % (level, k, cls)))
-    return {"ev": ev}
+    return ev
 
 
 def corrupt(trace, rng):
